@@ -125,10 +125,18 @@ def _work(job):
         with open(p, "w") as f:
             f.write(inp[5:])
         inp = p
+    lig = os.path.join(DATA, "acetate.mol2")
+    if job.get("first_files"):
+        # a history in one process: the same command succeeded a moment ago with other contents of the same files
+        for name, text in job["first_files"].items():
+            with open(os.path.join(wd, name), "w") as f:
+                f.write(text)
+        r0 = runner.run([a.replace("@DIR@", wd).replace("@LIG@", lig) for a in job["args"]] + [inp, os.path.join(wd, "first.pqr")])
+        if not r0["ok"]:
+            raise core.MachineryError(f"first run of history {job['klass']} failed: {r0['exc_type']} {r0['exc']}")
     for name, text in (job.get("files") or {}).items():
         with open(os.path.join(wd, name), "w") as f:
             f.write(text)
-    lig = os.path.join(DATA, "acetate.mol2")
     args = [a.replace("@DIR@", wd).replace("@LIG@", lig) for a in job["args"]] + [inp, out]
     fault = None
     if job.get("fault"):
@@ -185,6 +193,20 @@ def natural_causes(rng):
         ("nonintegral-charge-assign-only-inner-hydrogen-missing", ["--ff=AMBER", "--assign-only"],
          gen.pdb_text([h_inner_missing]), {}),
         ("missing-input-file", ["--ff=AMBER"], None, {}),
+        ("header-only-input", ["--ff=AMBER"], "HEADER    NOTHING HERE\nREMARK   1 no coordinates\nEND\n", {}),
+        ("header-only-input-clean", ["--clean"], "HEADER    NOTHING HERE\nREMARK   1 no coordinates\nEND\n", {}),
+        ("header-only-input-assign-only", ["--ff=AMBER", "--assign-only"], "HEADER    NOTHING HERE\nREMARK   1 no coordinates\nEND\n", {}),
+        ("water-only-input-dropped-clean", ["--clean", "--drop-water"], gen.pdb_text([gen.water((0, 0, 0)) + gen.water((3, 3, 3), resseq=901)]), {}),
+        ("water-only-input-dropped-assign-only", ["--ff=AMBER", "--assign-only", "--drop-water"], gen.pdb_text([gen.water((0, 0, 0))]), {}),
+        ("water-only-input-dropped", ["--ff=AMBER", "--drop-water"], gen.pdb_text([gen.water((0, 0, 0)) + gen.water((3, 3, 3), resseq=901)]), {}),
+        ("hetero-only-input-noopt", ["--ff=PARSE", "--noopt", "--nodebump"], gen.pdb_text([gen.water((0, 0, 0), name="XYZ")]), {}),
+        # the same command line succeeded in this process just before the files were replaced
+        ("userff-replaced-by-nonintegral-charges", ["--userff=@DIR@/u.dat", "--usernames=@DIR@/u.names"], good,
+         {"u.dat": "\n".join(bad_dat), "u.names": custom_names}, {"u.dat": custom_dat, "u.names": custom_names}),
+        ("userff-replaced-by-junk", ["--userff=@DIR@/u.dat", "--usernames=@DIR@/u.names"], good,
+         {"u.dat": "this is not a parameter file\n", "u.names": custom_names}, {"u.dat": custom_dat, "u.names": custom_names}),
+        ("usernames-replaced-by-junk", ["--userff=@DIR@/u.dat", "--usernames=@DIR@/u.names"], good,
+         {"u.dat": custom_dat, "u.names": "<ForceField><oops>"}, {"u.dat": custom_dat, "u.names": custom_names}),
     ]
     return cases
 
@@ -246,11 +268,11 @@ def run(ctx):
             for exc in ex:
                 jobs.append({"id": len(jobs) + 1, "klass": klass, "args": ["--ff=AMBER"] + CLASSES[klass],
                              "fs0": row["fs0"], "fault": [row["fault"], when, exc], "kind": "fault"})
-    for name, args, text, files in natural_causes(rng):
+    for name, args, text, files, *first in natural_causes(rng):
         for fs0 in ("absent", "old"):
             jobs.append({"id": len(jobs) + 1, "klass": name, "args": args, "fs0": fs0, "fault": None, "kind": "natural",
                          "input": ("TEXT:" + text) if text is not None else os.path.join(core.VERIF, ".work", "does-not-exist.pdb"),
-                         "files": files})
+                         "files": files, "first_files": first[0] if first else None})
     # success side
     ffs = gen.FORCE_FIELDS
     for x in gen.AMINO:
